@@ -20,6 +20,13 @@ pub open spec fn only_inserts(old_all: Map<KeyId, InternalJweA128GCM>, new_all: 
     forall|j: KeyId| #[trigger] old_all.contains_key(j) ==> new_all.contains_key(j) && (new_all[j] == old_all[j] || (new_all[j].status is Valid && new_all[j].valid_from == vf))
 }
 
+//@extract KeyUsage
+//@extract KeyInternalData
+// der material is moved around opaquely
+#[verifier::external_body] pub fn kvx_der<T>(x: &T) -> (r: Zeroizing<Vec<u8>>) { unimplemented!() }
+#[verifier::external_body] pub fn kvx_der_empty() -> (r: Zeroizing<Vec<u8>>) { unimplemented!() }
+// one element of to_key_iter: what is written to the key value set for one in-memory key (closure-converted, R5)
+//@extract to_key_step
 impl KeyObjectInternalJweA128GCM {
 //@extract get_valid_cipher
 //@extract assert_active
